@@ -9,6 +9,11 @@ identity-encoded integer blocks, and against the restart choice of the real
 Search oracle: the ground truth of the generator (lib/etgen.py) for the
 directory it wrote, which knows nothing of aurel or of the Lean model.
 
+Extension 2 (Props/C11d.lean): Model/MultiThorn.lean (literal multi-thorn branch of read_ET_checkpoints and
+read_ET_group_or_var) tied by the `ckptm` and `gvar` correspondences (real HDF5 files with the same variable
+name in 2-3 thorns, iterations written by different process counts); Spec/CheckpointMixed.lean; name maps for
+every table entry and every string.
+
 Extension (Props/C11b.lean, Props/C11c.lean):
  * Model/Restarts.lean (restart choice with / without checkpoints, explicit restart, flattening of the
    per-restart tables) tied to the real read_data by the `sel2` correspondence;
@@ -45,9 +50,21 @@ THEOREMS_B = ["AurelVerif.C11." + t for t in (
     "active_restarts", "rows_aligned_when_columns_differ", "checkpoint_only_restart_shadows_3d")]
 MODULE_C = "AurelVerif.Props.C11c"
 THEOREMS_C = ["AurelVerif.C11." + t for t in (
-    "checkpoint_file_selection", "checkpoint_it_exact", "checkpoint_table_exact", "checkpoint_pipeline_exact",
+    "checkpoint_file_selection", "checkpoint_it_exact", "checkpoint_it_auto_exact", "checkpoint_table_exact", "checkpoint_pipeline_exact",
     "checkpoint_duplicate_names_read_once", "checkpoint_prefix_body_duplicates", "ckGoodIt")]
-LEAN_FILES = ["AurelVerif/Props/C11.lean", "AurelVerif/Lemmas/Chunks.lean", "AurelVerif/Model/Chunks.lean",
+MODULE_D = "AurelVerif.Props.C11d"
+THEOREMS_D = ["AurelVerif.C11." + t for t in (
+    "aurel_table_covered", "et_table_roundtrip", "scalar_names_injective", "tensor_expansions_disjoint",
+    "name_roundtrip_every_string", "et_name_roundtrip_every_string", "canonical_names_idempotent",
+    "checkpoint_process_count_irrelevant", "checkpoint_layout_found_per_iteration", "checkpoint_mixed_layouts_read",
+    "checkpoint_onefile_then_perproc_read", "checkpoint_perproc_then_chunked_read",
+    "checkpoint_perproc_then_lone_read", "multi_thorn_file_read", "multi_thorn_substring_raises",
+    "multi_thorn_rest_differs_raises", "two_thorns_checkpoint_witness", "two_thorns_chunked_checkpoint_raises",
+    "combined_name_next_to_plain_name_misaligns", "two_thorns_group_or_var_witness",
+    "second_thorn_appearing_later_raises")]
+LEAN_FILES = ["AurelVerif/Props/C11d.lean", "AurelVerif/Model/MultiThorn.lean",
+              "AurelVerif/Lemmas/C11Names.lean", "AurelVerif/Lemmas/C11MultiThorn.lean",
+              "AurelVerif/Props/C11.lean", "AurelVerif/Lemmas/Chunks.lean", "AurelVerif/Model/Chunks.lean",
               "AurelVerif/Gen/VarMaps.lean", "Driver/C11.lean",
               "AurelVerif/Props/C11b.lean", "AurelVerif/Props/C11c.lean", "AurelVerif/Model/Restarts.lean",
               "AurelVerif/Model/Checkpoint.lean", "AurelVerif/Spec/ChunkLayout.lean",
@@ -681,10 +698,230 @@ def ckpt_cases(ctx, tmp):
         with quiet():
             out, order, _ = ckpt_real(c, tmp)
         cases.append((ckpt_line(c, order), out, "ckpt"))
+        cases.append((ckpt_line(c, order).replace("ckpt ", "ckptm ", 1), out, "ckptm"))   # the literal model too
         k = "%s/%s" % ("proc" if any(f["file"] is not None for f in c["files"]) else "onefile",
                         "err" if out == "err" else "ok")
         kinds[k] = kinds.get(k, 0) + 1
     ctx.cov["checkpoint_direct_cases"] = kinds
+    return cases
+
+
+# --------------------------------------------------------------------------
+# level (iii-b): the multi-thorn branch and mixed process counts (Model/MultiThorn.lean)
+# --------------------------------------------------------------------------
+def twin_thorn(rng, thorn):
+    """a second thorn that carries the same variable name"""
+    r = rng.random()
+    if thorn == "ML_BSSN" and r < 0.5:
+        return "ML_ADMCONSTRAINTS"
+    if r < 0.7:
+        return "A" + thorn          # sorts first, is not contained in the other name
+    if r < 0.85:
+        return thorn + "2"
+    return "Z" + thorn              # sorts last and CONTAINS the other name: the substring look-up finds two keys
+
+
+def gen_ckpt2(rng):
+    """checkpoint file sets with (a) the same variable name in two thorns, (b) iterations written by
+    different numbers of processes / different file layouts (cmax is decided per iteration since /repo bd9646b)"""
+    nlev = rng.choice((1, 1, 2))
+    chk_its = sorted(rng.sample([0, 1, 8, 10, 11, 16, 110], rng.randint(1, 3)))
+    mixed = rng.random() < 0.5
+    shapes = [[rng.randint(1, 4) for _ in range(3)] for _ in range(nlev)]
+
+    def draw_layout():
+        per_proc = rng.random() < 0.5
+        for _ in range(200):
+            levels = []
+            for (nx, ny, nz) in shapes:
+                dec = etgen.random_decomp(rng, nx, ny, nz, rng.choice(((1, 1, 1), (2, 1, 1), (2, 2, 1), (2, 2, 2))), 0.2)
+                order = list(range(etgen.nchunks(dec)))
+                rng.shuffle(order)
+                g = rng.randint(1, 2)
+                levels.append({"dec": dec, "order": order, "ghost": [g, g, g], "base": [rng.choice((0, 0, 3)) for _ in range(3)]})
+            counts = {len(lv["order"]) for lv in levels}
+            if not per_proc or (len(counts) == 1 and min(counts) >= 2):
+                return per_proc, levels
+        return False, levels
+    layout0 = draw_layout()
+    written = rng.sample(CK_POOL, rng.randint(1, 3))
+    twins = []
+    if rng.random() < 0.7:
+        for w in rng.sample(written, rng.randint(1, len(written))):
+            twins.append((twin_thorn(rng, w[0]), w[1]))
+            if rng.random() < 0.2:
+                twins.append(("B" + w[0], w[1]))           # three thorns
+    late_twin = rng.random() < 0.1                          # the second thorn appears only from the 2nd checkpoint on
+    ntl = rng.randint(1, 2)
+    m0 = rng.random() < 0.5
+    files = {}
+    counter = [0]
+
+    def v0():
+        counter[0] += 1
+        return 1000 * counter[0]
+    for n_it, it in enumerate(chk_its):
+        per_proc, levels = draw_layout() if (mixed and n_it > 0) else layout0
+        for rl, lv in enumerate(levels):
+            chunks = etgen.canonical_chunks(lv["dec"])
+            n = len(chunks)
+            gx, gy, gz = lv["ghost"]
+            for j, (ox, oy, oz, xl, yl, zl) in enumerate(chunks):
+                c = lv["order"][j]
+                lst = files.setdefault((it, c if per_proc else None), [])
+                names = [w[:2] for w in written] + ([] if (late_twin and n_it == 0) else twins)
+                for thorn, ev in names:
+                    for tl in range(ntl):
+                        lst.append([thorn, ev, it, tl, rl, c if n > 1 else None, gx, gy, gz,
+                                    lv["base"][0] + ox, lv["base"][1] + oy, lv["base"][2] + oz,
+                                    500 + it - tl if tl == 0 else 300 + tl, zl + 2 * gz, yl + 2 * gy, xl + 2 * gx, v0()])
+    case = {"op": "ckpt", "m0": m0, "files": [{"it": k[0], "file": k[1], "dsets": v} for k, v in files.items()]}
+    its = rng.sample(chk_its, rng.randint(1, len(chk_its)))
+    if rng.random() < 0.2:
+        its.append(rng.choice(its))
+    names = [w[2] for w in rng.sample(written, rng.randint(1, len(written)))]
+    r = rng.random()
+    if r < 0.1:
+        names.append(rng.choice(names))
+    elif r < 0.25:
+        w = rng.choice(written)
+        names.insert(rng.randrange(len(names) + 1), "%s::%s" % w[:2])     # combined name next to the plain one
+    elif r < 0.35 and twins:
+        names.append("%s::%s" % rng.choice(twins))
+    case.update({"its": its, "vars": names, "rl": rng.randrange(nlev), "mixed": mixed, "twins": len(twins)})
+    for f in case["files"]:
+        seen, keep = set(), []
+        for d in f["dsets"]:
+            k = ds_key(d, m0)
+            if k not in seen:
+                seen.add(k)
+                keep.append(d)
+        f["dsets"] = keep
+    return case
+
+
+def ckpt2_cases(ctx, tmp):
+    cases = []
+    kinds = {}
+    for _ in range(ctx.budget(120, 1200)):
+        c = gen_ckpt2(ctx.rng)
+        with quiet():
+            out, order, _ = ckpt_real(c, tmp)
+        cases.append((ckpt_line(c, order).replace("ckpt ", "ckptm ", 1), out, "ckptm"))
+        k = "%s/%s/%s" % ("twins" if c["twins"] else "plain", "mixed" if c["mixed"] else "uniform",
+                           "err" if out == "err" else "ok")
+        kinds[k] = kinds.get(k, 0) + 1
+    ctx.cov["checkpoint_multithorn_mixed_cases"] = kinds
+    return cases
+
+
+GV_GROUPS = [["H"], ["M1", "M2", "M3"], ["alp"], ["gxx", "gxy"], ["rho"], ["H", "H2"]]
+
+
+def gen_gvar(rng):
+    """one variable / one group of a 3D output restart, handed to read_ET_group_or_var: the three
+    chunk layouts, several iterations, optionally the same variable names in a second (third) thorn"""
+    nx, ny, nz = (rng.randint(1, 4) for _ in range(3))
+    layout = rng.choice(("nochunks", "onefile", "proc"))
+    for _ in range(200):
+        dec = etgen.random_decomp(rng, nx, ny, nz, (1, 1, 1) if layout == "nochunks" else rng.choice(((2, 1, 1), (2, 2, 1), (2, 2, 2))), 0.2)
+        n = etgen.nchunks(dec)
+        if layout == "nochunks" or n >= 2 or (layout == "onefile" and rng.random() < 0.05):
+            break
+    if layout == "proc" and n < 2:
+        layout = "nochunks"
+    chunks = etgen.canonical_chunks(dec)
+    order = list(range(n))
+    rng.shuffle(order)
+    g = rng.randint(1, 2)
+    variables = list(rng.choice(GV_GROUPS))
+    thorns = ["ML_BSSN"]
+    if rng.random() < 0.75:
+        thorns.append(twin_thorn(rng, "ML_BSSN"))
+        if rng.random() < 0.2:
+            thorns.append("BML_BSSN")
+    twin_vars = variables if rng.random() < 0.7 else rng.sample(variables, rng.randint(1, len(variables)))
+    its = sorted(rng.sample([0, 2, 4, 8], rng.randint(1, 3)))
+    late = rng.random() < 0.08
+    files = {}
+    counter = [0]
+    for it in its:
+        for j, (ox, oy, oz, xl, yl, zl) in enumerate(chunks):
+            c = order[j]
+            lst = files.setdefault(c if layout == "proc" else None, [])
+            for ti, thorn in enumerate(thorns):
+                for ev in variables:
+                    if ti > 0 and (ev not in twin_vars or (late and it == its[0])):
+                        continue
+                    counter[0] += 1
+                    lst.append([thorn, ev, it, 0, 0, c if (n > 1 or layout == "onefile" and rng.random() < 0.0) else None,
+                                g, g, g, ox, oy, oz, 700 + it, zl + 2 * g, yl + 2 * g, xl + 2 * g, 1000 * counter[0]])
+    req = list(variables)
+    if variables == ["H", "H2"] and rng.random() < 0.5:
+        req = ["H"] if rng.random() < 0.5 else ["H2", "H"]
+    r = rng.random()
+    if r < 0.1:
+        req.append("%s::%s" % (thorns[0], req[0]))          # combined name next to the plain one
+    elif r < 0.15:
+        req = ["%s::%s" % (thorns[-1], v) for v in req]
+    fl = [{"it": 0, "file": k, "dsets": v} for k, v in files.items()]
+    rng.shuffle(fl)
+    cmax = None if layout != "proc" else max(f["file"] for f in fl)
+    return {"op": "gvar", "m0": rng.random() < 0.3, "files": fl, "its": rng.sample(its, rng.randint(1, len(its))),
+            "vars": req, "rl": 0, "cmax": cmax, "layout": layout, "thorns": len(thorns)}
+
+
+def gvar_real(c, tmp):
+    import h5py
+    d = os.path.join(tmp, "gv")
+    os.makedirs(d, exist_ok=True)
+    try:
+        paths = []
+        for f in c["files"]:
+            fn = os.path.join(d, "x%s.h5" % ("" if f["file"] is None else ".file_%d" % f["file"]))
+            paths.append(fn)
+            with h5py.File(fn, "w") as h:
+                h.create_group("Parameters and Global Attributes")
+                for ds in f["dsets"]:
+                    x = h.create_dataset(ds_key(ds, c["m0"]), data=index_block(ds[16], ds[13], ds[14], ds[15]).astype(np.float64))
+                    x.attrs["cctk_nghostzones"] = np.array(ds[6:9], dtype=np.int32)
+                    x.attrs["iorigin"] = np.array(ds[9:12], dtype=np.int32)
+                    x.attrs["time"] = np.float64(ds[12])
+        try:
+            with quiet():
+                out = reading().read_ET_group_or_var(list(c["vars"]), paths, "in file" if c["cmax"] is None else c["cmax"],
+                                                    it=list(c["its"]), rl=c["rl"])
+        except (ValueError, IndexError, KeyError, TypeError, NameError) as ex:
+            return "err", type(ex).__name__
+        s = "ok t=" + ",".join(str(int(t)) for t in out.get("t", []))
+        for k, v in out.items():
+            if k != "t":
+                s += "|" + k + "=" + "/".join(show_arr(x) for x in v)
+        return s, out
+    finally:
+        shutil.rmtree(d, ignore_errors=True)
+
+
+def gvar_line(c):
+    toks = []
+    for f in c["files"]:
+        ds = sorted(f["dsets"], key=lambda d: ds_key(d, c["m0"]))
+        toks.append("0:%s:%s" % ("-" if f["file"] is None else f["file"], ";".join(
+            ",".join("-" if x is None else str(x) for x in d) for d in ds)))
+    return "gvar %s %d %s %s %s" % ("-" if c["cmax"] is None else c["cmax"], c["rl"], ",".join(map(str, c["its"])),
+                                    ",".join(c["vars"]), " ".join(toks))
+
+
+def gvar_cases(ctx, tmp):
+    cases = []
+    kinds = {}
+    for _ in range(ctx.budget(150, 1500)):
+        c = gen_gvar(ctx.rng)
+        out, _ = gvar_real(c, tmp)
+        cases.append((gvar_line(c), out, "gvar"))
+        k = "%s/%dthorn/%s" % (c["layout"], c["thorns"], "err" if out == "err" else "ok")
+        kinds[k] = kinds.get(k, 0) + 1
+    ctx.cov["group_or_var_multithorn_cases"] = kinds
     return cases
 
 
@@ -991,6 +1228,146 @@ def witness_cases(ctx, tmp):
     # the checkpoint path does not meet a missing column: a variable that is not in a checkpoint raises
     notes["variable_missing_in_a_checkpoint"] = checkpoint_without_variable(tmp)
     ctx.cov["witness_replays"] = notes
+    cases += multi_thorn_findings(ctx, tmp)
+    return cases
+
+
+# --------------------------------------------------------------------------
+# known findings of the multi-thorn branch (not repaired): deterministic witnesses, rebuilt on every run
+# --------------------------------------------------------------------------
+TWIN_DIGIT = 3        # restart digit that marks the data of the second thorn (ML_ADMCONSTRAINTS::H)
+
+
+def two_thorn_sim(tmp, grouped):
+    """a directory whose restart 0 wrote H of BOTH ML_BSSN and ML_ADMCONSTRAINTS at iterations 0 and 8:
+    one-variable-per-file -> both in H.h5; one-group-per-file -> ml_bssn-ml_ham.h5 and ml_admconstraints-ml_ham.h5.
+    ML_ADMCONSTRAINTS's values carry restart digit TWIN_DIGIT."""
+    import h5py
+    desc = {"name": "twothorn%d" % grouped, "per_proc": False, "grouped": grouped, "m0": False,
+            "vars": ["Hamiltonian"],
+            "levels": [{"shape": [3, 2, 2], "ghost": [1, 1, 1], "base": [0, 0, 0], "decomp": [[2, [[2, [3]]]]],
+                        "order": [0]}],
+            "restarts": [{"number": 0, "its": [0, 8]}], "par_in": 0, "requests": ["Hamiltonian"]}
+    sim = etgen.Sim(tmp + "/", desc).write()
+    out = sim.outdir(0)
+
+    def copy(f, g):
+        for k in list(f.keys()):
+            if k.startswith("ML_BSSN::H "):
+                d = np.array(f[k])
+                d = np.where(d >= 0, d + TWIN_DIGIT * etgen.NX ** 3, d)
+                ds = g.create_dataset(k.replace("ML_BSSN", "ML_ADMCONSTRAINTS"), data=d)
+                for a, v in f[k].attrs.items():
+                    ds.attrs[a] = v
+    if grouped:
+        with h5py.File(os.path.join(out, "ml_bssn-ml_ham.h5"), "r") as f, \
+                h5py.File(os.path.join(out, "ml_admconstraints-ml_ham.h5"), "w") as g:
+            g.create_group("Parameters and Global Attributes")
+            copy(f, g)
+    else:
+        with h5py.File(os.path.join(out, "H.h5"), "a") as f:
+            copy(f, f)
+    return sim
+
+
+def _cols(sim, data):
+    """{key: [restart digit of the data of each entry | None]} of a read_data result"""
+    out = {}
+    for k, v in data.items():
+        if k in ("it", "t"):
+            continue
+        out[k] = [None if x is None else etgen.decode(np.asarray(x).flat[0]).get("restart") for x in v]
+    return out
+
+
+def two_thorns_default_path(tmp):
+    """D1: H.h5 holds ML_BSSN::H and ML_ADMCONSTRAINTS::H. -> (uncached columns, default-path columns, exact?)"""
+    sim = two_thorn_sim(tmp, False)
+    try:
+        call = {"it": [0, 8], "vars": ["Hamiltonian"], "rl": 0, "restart": -1, "skip_last": False}
+        un = do_read(sim.param(), call, split_per_it=False)
+        exact = all(k in un and all(np.array_equal(np.asarray(un[k][i]), sim.truth("Hamiltonian", it, 0, r))
+                                    for i, it in enumerate((0, 8)))
+                    for k, r in (("ML_BSSN::H", 0), ("ML_ADMCONSTRAINTS::H", TWIN_DIGIT)))
+        sim.clear_caches()
+        de = do_read(sim.param(), call, split_per_it=True)
+        return _cols(sim, un), _cols(sim, de), exact
+    finally:
+        sim.remove()
+
+
+def two_thorn_group_files(tmp):
+    """D2: ml_bssn-ml_ham.h5 and ml_admconstraints-ml_ham.h5 next to each other -> columns of the uncached read"""
+    sim = two_thorn_sim(tmp, True)
+    try:
+        call = {"it": [0, 8], "vars": ["Hamiltonian"], "rl": 0, "restart": -1, "skip_last": False}
+        return _cols(sim, do_read(sim.param(), call, split_per_it=False))
+    finally:
+        sim.remove()
+
+
+def _mt(thorn, ev, it, v0):
+    return [thorn, ev, it, 0, 0, None, 1, 1, 1, 0, 0, 0, 500 + it, 3, 3, 3, v0]
+
+
+SUBSTRING_CASE = {"op": "gvar", "m0": False, "cmax": None, "rl": 0, "its": [0], "vars": ["H"], "layout": "nochunks",
+                  "thorns": 2, "files": [{"it": 0, "file": None, "dsets": [_mt("A", "H", 0, 1000), _mt("BA", "H", 0, 2000)]}]}
+TWICE_CASE = {"op": "ckpt", "m0": False, "rl": 0, "its": [0, 8], "vars": ["Hamiltonian", "ML_BSSN::H"],
+              "files": [{"it": it, "file": None, "dsets": [_mt("ML_ADMCONSTRAINTS", "H", it, 2000 + 10 * it),
+                                                            _mt("ML_BSSN", "H", it, 1000 + 10 * it)]} for it in (8, 0)]}
+TWICE_STATED = ("ok it=0,8|t=500/508|ML_ADMCONSTRAINTS::H=1x1x1:2013/1x1x1:2093"
+                "|ML_BSSN::H=1x1x1:1013/1x1x1:1013/1x1x1:1093/1x1x1:1093")
+
+
+def multi_thorn_findings(ctx, tmp):
+    """the four unrepaired findings of the multi-thorn branch: built, replayed on the real code, reported through
+    ctx.violation (fingerprints listed in known_findings.json); D4 / D5 are also correspondence cases"""
+    cases = []
+    notes = {}
+    # D1 ------------------------------------------------------------------
+    un, de, exact = two_thorns_default_path(tmp)
+    notes["two_thorns_default_path"] = {"split_per_it=False": un, "default": de, "uncached_data_exact": exact}
+    ctx.obligation("witness two thorns in H.h5: the uncached read returns both thorns' H exactly, under THORN::H "
+                   "(Props/C11d two_thorns_group_or_var_witness)",
+                   exact and un == {"ML_ADMCONSTRAINTS::H": [TWIN_DIGIT, TWIN_DIGIT], "ML_BSSN::H": [0, 0]},
+                   "columns %s" % un, kind="correspondence")
+    if exact and all(x is None for v in de.values() for x in v):
+        ctx.violation("H.h5 holds ML_BSSN::H and ML_ADMCONSTRAINTS::H: read_data(vars=['Hamiltonian'], "
+                      "split_per_it=False) returns the stored data under %s, the default split_per_it=True returns %s "
+                      "- the stored data cannot be read on the default path" % (sorted(un), de),
+                      {"kind": "input", "op": "twothorns_default"}, {"kind": "two_thorns_default_path_none"})
+    # D2 ------------------------------------------------------------------
+    gr = two_thorn_group_files(tmp)
+    notes["two_thorn_group_files"] = gr
+    if gr == {"Hamiltonian": [0, 0]}:
+        ctx.violation("ml_bssn-ml_ham.h5 and ml_admconstraints-ml_ham.h5 in one restart: read_data(vars=['Hamiltonian']) "
+                      "returns %s (restart digit 0 = ML_BSSN's data); ML_ADMCONSTRAINTS::H (digit %d) is stored but "
+                      "unreachable, no error" % (gr, TWIN_DIGIT),
+                      {"kind": "input", "op": "twothorns_groups"}, {"kind": "two_thorn_group_files_shadowed"})
+    # D4 ------------------------------------------------------------------
+    out, exn = gvar_real(SUBSTRING_CASE, tmp)
+    notes["substring_lookup"] = "%s %s" % (out, exn if out == "err" else "")
+    ctx.obligation("witness multi_thorn_substring_raises replays on the real read_ET_group_or_var (thorns A and BA)",
+                   out == "err" and exn == "ValueError", "real %s" % notes["substring_lookup"], kind="correspondence")
+    cases.append((gvar_line(SUBSTRING_CASE), out, "witness"))
+    if out == "err":
+        ctx.violation("read_ET_group_or_var(['H']) on a file holding A::H and BA::H raises %s: after the rewrite the "
+                      "look-up is a substring test and 'A::H' is contained in 'BA::H'" % exn,
+                      {"kind": "input", "op": "substring"}, {"kind": "thorn_substring_lookup_raises"})
+    # D5 ------------------------------------------------------------------
+    with quiet():
+        out, order, _ = ckpt_real(TWICE_CASE, tmp)
+    notes["combined_name_twice"] = out
+    ctx.obligation("witness combined_name_next_to_plain_name_misaligns replays on the real read_ET_checkpoints "
+                   "(two entries per iteration in the ML_BSSN::H column)", out == TWICE_STATED,
+                   "real %s | stated %s" % (out[:200], TWICE_STATED), kind="correspondence")
+    cases.append((ckpt_line(TWICE_CASE, order).replace("ckpt ", "ckptm ", 1), out, "witness"))
+    if out == TWICE_STATED:
+        ctx.violation("read_ET_checkpoints(vars=['Hamiltonian', 'ML_BSSN::H'], it=[0, 8]): the rewrite puts ML_BSSN::H "
+                      "in the request list twice, its column has 4 entries for 2 iterations (entry 1 is iteration "
+                      "0's data): %s" % out,
+                      {"kind": "input", "op": "combined_twice"}, {"kind": "combined_name_requested_twice"})
+    ctx.cov["multi_thorn_known_findings"] = notes
     return cases
 
 
@@ -1101,8 +1478,15 @@ def run(ctx):
     ctx.assumptions += ["arrays with a zero extent are represented only up to emptiness (nested lists carry no shape)",
                         "one chunk per process and level; every level has the same number of chunks in the "
                         "file-per-process layout (what Carpet writes)",
-                        "checkpoint path: a variable name that exists in two thorns of one file is not modelled; "
-                        "all checkpoints of one restart are written by the same number of processes",
+                        "the same variable name in two thorns of one file: modelled literally (Model/MultiThorn.lean, "
+                        "tied by the ckptm / gvar correspondences); the general read-back theorem covers one "
+                        "component per file (multi_thorn_file_read); the old model Model/Checkpoint.lean (C11c "
+                        "theorems) returns `none` there",
+                        "zero extents: Carpet never writes a component with a zero interior extent (to our knowledge: a "
+                        "process always owns at least one interior point per direction); the code "
+                        "produces empty slices only for cctk_nghostzones = 0 (the stated [0:-0] boundary, all "
+                        "chunks alike), so 'zero extent in only some chunks' needs chunks with DIFFERENT ghost "
+                        "widths in one variable - not a Carpet layout; the nested-list limit is kept and documented",
                         "row alignment (None where a restart lacks a column) is proven around per-restart readers "
                         "that deliver one entry per iteration in every column they have; a restart that is read "
                         "but wrote NONE of the requested variables collects no time and the call raises",
@@ -1117,9 +1501,10 @@ def run(ctx):
         ctx.prove(MODULE, THEOREMS)
         ctx.prove(MODULE_B, THEOREMS_B)
         ctx.prove(MODULE_C, THEOREMS_C)
+        ctx.prove(MODULE_D, THEOREMS_D)
         ctx.forbidden_scan(LEAN_FILES)
         if ctx.tier == "thorough":
-            ctx.leanchecker([MODULE, MODULE_B, MODULE_C])
+            ctx.leanchecker([MODULE, MODULE_B, MODULE_C, MODULE_D])
     tmp = tempfile.mkdtemp(prefix="c11_")
     found = 0
     try:
@@ -1137,6 +1522,12 @@ def run(ctx):
             cases += ckpt_cases(ctx, tmp)
         except Exception as ex:  # noqa
             ctx.obligation("correspondence: read_ET_checkpoints cases", False, repr(ex), kind="correspondence")
+        try:
+            cases += ckpt2_cases(ctx, tmp)
+            cases += gvar_cases(ctx, tmp)
+        except Exception as ex:  # noqa
+            ctx.obligation("correspondence: multi-thorn / mixed process count cases", False, repr(ex),
+                           kind="correspondence")
         f, sel2 = checkpoint_pipeline(ctx, tmp + "/", ctx.budget(12, 80) + (8 if ctx.broken() else 0))
         found += f
         cases += sel2
@@ -1172,6 +1563,12 @@ def run(ctx):
                      "names": "Gen/VarMaps functions vs transform_vars_*", "sel": "readOrder vs restart chosen by read_data",
                      "ckpt": "Model/Checkpoint.readCheckpoints vs read_ET_checkpoints on real HDF5 checkpoint files "
                              "(well-formed and malformed)",
+                     "ckptm": "Model/MultiThorn.readCheckpointsM (literal: request list rewritten while iterated over) vs "
+                              "read_ET_checkpoints on real HDF5 checkpoint files with the same variable name in 2-3 "
+                              "thorns and with iterations written by different numbers of processes / layouts",
+                     "gvar": "Model/MultiThorn.readGroupOrVar vs read_ET_group_or_var on real HDF5 files (3 chunk "
+                             "layouts, several iterations, 1-3 thorns with common variable names, substring thorn "
+                             "names, a second thorn appearing later, combined names in the request)",
                      "sel2": "Model/Restarts.readETData vs restart chosen by read_data (with/without checkpoints, "
                              "explicit restart, nothing to read)",
                      "witness": "witnesses of the Lean theorems: model output vs real output"}
@@ -1217,6 +1614,24 @@ def replay(ctx, obj):
             res = checkpoint_only_restart(tmp)
             print("replay checkpoint-only restart: %s" % res)
             return 1 if res.startswith("raised") else 0
+        if obj.get("op") == "twothorns_default":
+            un, de, exact = two_thorns_default_path(tmp)
+            print("replay two thorns in H.h5: split_per_it=False %s (exact %s); default path %s" % (un, exact, de))
+            return 1 if exact and all(x is None for v in de.values() for x in v) else 0
+        if obj.get("op") == "twothorns_groups":
+            gr = two_thorn_group_files(tmp)
+            print("replay ml_bssn-ml_ham + ml_admconstraints-ml_ham: %s (restart digit 0 = ML_BSSN, %d = "
+                  "ML_ADMCONSTRAINTS)" % (gr, TWIN_DIGIT))
+            return 1 if gr == {"Hamiltonian": [0, 0]} else 0
+        if obj.get("op") == "substring":
+            out, exn = gvar_real(SUBSTRING_CASE, tmp)
+            print("replay thorns A / BA: read_ET_group_or_var gives %s %s" % (out, exn if out == "err" else ""))
+            return 1 if out == "err" else 0
+        if obj.get("op") == "combined_twice":
+            with quiet():
+                out, _, _ = ckpt_real(TWICE_CASE, tmp)
+            print("replay ['Hamiltonian', 'ML_BSSN::H']: %s" % out[:300])
+            return 1 if out == TWICE_STATED else 0
         if obj.get("op") == "ckpt":
             out, order, _ = ckpt_real(obj["case"], tmp)
             print("replay ckpt: real read_ET_checkpoints gives %s" % out[:300])
@@ -1265,6 +1680,24 @@ MANIFEST = {
             "restart selection of read_ET_data(usecheckpoints=True), for ANY request list: a name requested twice (same "
             "name, component next to its tensor, ET name next to the aurel name) is read once (a25772a) and every column "
             "has exactly one entry per returned iteration. "
+            "NAMES, every entry and every string (Props/C11d): the D6 lists are the whole generated table; every entry of "
+            "the ET->aurel table maps back; no two aurel scalar names share an ET variable; tensor expansions are "
+            "disjoint; aurel->ET->aurel is the identity on EVERY string that is neither a tensor nor an ET-table key, "
+            "ET->aurel->ET on every string the aurel table leaves alone; result column names are canonical. "
+            "MIXED LAYOUTS (/repo bd9646b: cmax is decided per iteration; Model/Checkpoint.cmaxOf, Spec GoodItAuto): "
+            "checkpoints of one restart written by different numbers of processes or in different layouts (one file, "
+            "one file with components, one file per process) are read back exactly - the table and pipeline theorems "
+            "of C11c carry NO cmax hypothesis any more; the number in a numeric cmax is never used; the formerly "
+            "raising mixtures (one file then per-process files; per-process then one file with components) are "
+            "kernel-evaluated witnesses of a correct read and are generated on every run. "
+            "SAME VARIABLE NAME IN SEVERAL THORNS (Model/MultiThorn.lean, literal: the request list is rewritten "
+            "while it is iterated over, state carried over chunks, files and iterations; read_ET_checkpoints and "
+            "read_ET_group_or_var): for one component per file every thorn's dataset is read exactly once under "
+            "THORN::var and the list becomes pre ++ THORN0::var :: post ++ [THORN1::var..] (multi_thorn_file_read); "
+            "the substring look-up raises when one THORN::var is contained in another dataset name; kernel-evaluated "
+            "witnesses: both thorns returned under combined names, one file with several components raises, a "
+            "combined name next to the plain name doubles the column (misaligned), a second thorn appearing at a "
+            "later iteration raises. "
             "All models are tied to the code by exact integer correspondence (join_chunks, fixij, "
             "read_ET_group_or_var and read_ET_checkpoints through real HDF5 files, restart choice of read_data); the "
             "whole read_data pipeline, with and without usecheckpoints, with duplicate names and with restarts that "
@@ -1275,8 +1708,19 @@ MANIFEST = {
             "real HDF5 files; 160 / 1500 random checkpoint file sets incl. malformed ones); the generator lib/etgen.py; "
             "h5py/numpy. KNOWN FINDINGS reported on every run (not repaired): class X - 'an unsupported layout raises' is "
             "false, e.g. a refinement level made of two separate boxes is glued together; a restart holding only "
-            "checkpoint files shadows the 3D data of earlier restarts (IndexError). NOT claimed: the checkpoint path "
-            "for the same variable name in two thorns of one file (not modelled), for restarts whose checkpoints were "
-            "written with different process counts, and for a variable absent from a checkpoint (raises ValueError, no "
-            "None); a restart that is read but wrote none of the requested variables (raises IndexError).",
+            "checkpoint files shadows the 3D data of earlier restarts (IndexError). The multi-thorn / mixed-count "
+            "model is validated on 120+160 / 1200+1500 checkpoint file sets and 150 / 1500 read_ET_group_or_var "
+            "file sets per run (2-3 thorns with a common variable name, substring thorn names, combined names in the "
+            "request, layouts changing between iterations). NOT claimed: a general read-back theorem for the "
+            "multi-thorn branch over several files / components (only one component per file; the rest is "
+            "correspondence + witnesses). KNOWN FINDINGS of the multi-thorn branch, rebuilt and replayed on the real "
+            "code on every run (not repaired: the in-place rewrite of the request list spans four functions): with "
+            "the default split_per_it=True a variable stored by two thorns of one file comes back as None "
+            "(two_thorns_default_path_none); two group files ml_bssn-ml_ham / ml_admconstraints-ml_ham are read as "
+            "chunks of ONE variable, the second silently wins (two_thorn_group_files_shadowed); the substring "
+            "look-up raises for thorns A / BA (thorn_substring_lookup_raises); a combined name next to the plain "
+            "name doubles the column (combined_name_requested_twice). Also not claimed: a variable "
+            "absent from a checkpoint (raises ValueError, no None); a restart that is read but wrote none of the "
+            "requested variables (raises IndexError); blocks with a zero extent in only some chunks (needs different "
+            "ghost widths inside one variable: not a Carpet layout; nested lists carry no shape).",
 }
